@@ -25,6 +25,8 @@ CHECKS = {
          "held on everything observed: every edge context (18) x root kind (7) systematically plus 300 (quick) / 4 000 (thorough) random graphs of 2-10 types over 1-5 files with cycles, unreachable, non-serde and error-arm-only decoys, both modes", "4 C07"),
  "C09": ("exploration", "runtime monitor: Zod-mode runs of the real CLI over enumerated DAGs under replayable hash seeds; declaration-before-use scan over the parsed types.ts",
          "held on everything observed: all labelled DAGs on <=3 (quick) / <=4 (thorough) nodes x 6 uniform edge contexts x 8/32 hash seeds (incl. OS-entropy processes) plus sampled DAGs to 6 nodes with mixed contexts; evidence reports distinct schema orders observed", "4 C09"),
+ "C10": ("exploration", "runtime monitor: each project generated in both modes by the real CLI; plain declarations and Zod schemas parsed into one shape model and diffed key by key; serde_json values replayed through a mini-Zod interpreter of the emitted parameter schemas",
+         "held on everything observed: type chains exhaustive to depth 2 (quick) / 3 (thorough) at field and parameter sites plus seeded deeper trees; name sets equal; value-level acceptance on a real-serde sample; differences equal to a recorded defect model are KNOWN-FINDINGs", "4 C10"),
  "C20": ("exploration", "runtime monitor: real ordering routines driven over enumerated graphs, each result judged by a closure/SCC oracle; crash = replayed and bisected",
          "held on every call observed: exhaustive over all digraphs (self-loops included) on <=3 nodes in quick and <=4 nodes in thorough, x all requested subsets x repeated fresh hash seeds, plus random graphs to 12 nodes; evidence reports distinct result orders seen per case", "4 C20"),
 }
